@@ -232,7 +232,10 @@ Record job := {
   j_dst_ctor : list cparam;             (* destCtorParams *)
   j_src_shootnew : bool;                (* the source type implements NewShooter *)
   j_manual_to : option (list string);   (* manual toX: paths it assigns on its parameter *)
-  j_manual_from : option (list string)  (* manual fromX: paths it assigns on its receiver *)
+  j_manual_from : option (list string); (* manual fromX: paths it assigns on its receiver *)
+  j_mapper_hop : option path            (* Some p: the mapper type is embedded BY POINTER at path p of the source
+                                           type and its methods have value receivers, so that `t.F(x)` dereferences
+                                           t.p (mismatch.go loadTypeMapperPkg accepts `*Mapper`); None otherwise *)
 }.
 
 (* ---------------------------------------------------- methods.go compatlize *)
@@ -533,7 +536,9 @@ Record plan := {
   pl_ctor : option (list (path * carg));  (* constructor call: (field path the parameter initialises, argument) *)
   pl_alloc : list (path * ty);            (* embedded pointers allocated up front, in this order *)
   pl_stmts : list stmt;
-  pl_manual : bool                        (* a manual toX/fromX runs last *)
+  pl_manual : bool;                       (* a manual toX/fromX runs last *)
+  pl_reset : bool                         (* FromX: `*s = S{}` on a non-nil receiver before anything is written
+                                             (unconditional text of mapper.tmpl; meaningless for ToX) *)
 }.
 
 (* the element type of a slice type, the type itself otherwise *)
@@ -687,11 +692,13 @@ Definition analyse (sigma : oracle) (jb : job) : option analysis :=
       let pto := {| pl_ctor := if use_d then Some (ctor_args true (pr_dctor pr) (s_src s2)) else None;
                     pl_alloc := if use_d then [] else with_ty (p_ptr pd) dst_alloc;
                     pl_stmts := to_stmts spaths src_need s2;
-                    pl_manual := match j_manual_to jb with Some _ => true | None => false end |} in
+                    pl_manual := match j_manual_to jb with Some _ => true | None => false end;
+                    pl_reset := true |} in
       let pfrom := {| pl_ctor := if use_s then Some (ctor_args false (pr_sctor pr) (s_dst s2)) else None;
                       pl_alloc := if use_s then [] else with_ty (p_ptr ps) src_alloc;
                       pl_stmts := from_stmts dpaths dst_need s2;
-                      pl_manual := match j_manual_from jb with Some _ => true | None => false end |} in
+                      pl_manual := match j_manual_from jb with Some _ => true | None => false end;
+                      pl_reset := true |} in
       Some {| a_state := s2; a_src_ctor := pr_sctor pr; a_dst_ctor := pr_dctor pr;
               a_use_src_ctor := use_s; a_use_dst_ctor := use_d;
               a_src_parsed := ps; a_dst_parsed := pd; a_to := pto; a_from := pfrom |}
